@@ -2,10 +2,117 @@
 //!  * prints one Coq `case` term per line (input, impl simplify, impl flatten) for the correspondence check
 //!  * evaluates the property itself on the implementation (value preservation on a grid of assignments,
 //!    idempotence, division-by-zero never rewritten away) = the failing-input search.
-use harness::{coqfmt as cq, eval::*, gens::*, report::Report, rng::Rng};
+use harness::{coqfmt as cq, eval::*, gens::*, models::LinSide, report::Report, rng::Rng};
+use indexmap::IndexMap;
 use rooc::model_transformer::Exp;
+use rooc::{Linearizer, OptimizationType, RoocParser};
 use serde_json::json;
 use std::io::Write;
+
+// ---------- part (b): two programs that differ only in how their constants are written
+#[derive(Clone)]
+enum Item { Coef(f64, usize), Div(f64, usize), Plain(usize), Const(f64) }
+const OPERANDS: [&str; 8] = ["x", "y", "z", "max { x, y }", "min { x, z }", "abs { z }", "(x + y)", "abs { x - y }"];
+/// one way of writing the constant `v`; `consts` collects the named constants it needs
+fn spell(r: &mut Rng, v: f64, consts: &mut Vec<(String, f64)>) -> String {
+    let lit = |x: f64| if x < 0.0 { format!("-{}", -x) } else { format!("{}", x) };
+    let mut named = |x: f64, consts: &mut Vec<(String, f64)>| -> String {
+        if let Some((n, _)) = consts.iter().find(|(_, c)| *c == x) { return n.clone(); }
+        let n = format!("K{}", consts.len()); consts.push((n.clone(), x)); n
+    };
+    match r.below(9) {
+        0 | 1 => lit(v),
+        2 => format!("({} + {})", lit(1.0), lit(v - 1.0)).replace("+ -", "- "),
+        3 => format!("(0 - {})", lit(-v)).replace("- -", "+ "),
+        4 => named(v, consts),
+        5 => format!("-{}", named(-v, consts)),
+        6 => format!("-({} + {})", lit(1.0), lit(-v - 1.0)).replace("+ -", "- "),
+        7 => format!("({} * {})", named(2.0 * v, consts), lit(0.5)),
+        _ => format!("({})", lit(v)),
+    }
+}
+fn render_item(r: &mut Rng, it: &Item, consts: &mut Vec<(String, f64)>) -> String {
+    match it {
+        Item::Coef(v, e) => {
+            let o = OPERANDS[*e];
+            // the implicit product needs a plain literal and a plain variable
+            if *e < 3 && r.below(5) == 0 { return format!("{}{}", if *v < 0.0 { format!("-{}", -v) } else { format!("{}", v) }, o); }
+            let c = spell(r, *v, consts);
+            if r.below(2) == 0 { format!("{} * {}", c, o) } else { format!("{} * {}", o, c) }
+        }
+        Item::Div(v, e) => format!("{} / {}", OPERANDS[*e], spell(r, *v, consts)),
+        Item::Plain(e) => OPERANDS[*e].to_string(),
+        Item::Const(v) => spell(r, *v, consts),
+    }
+}
+struct Twin { dir: &'static str, obj: Vec<Item>, rows: Vec<(Vec<Item>, &'static str, Item)> }
+fn gen_twin(r: &mut Rng) -> Twin {
+    let vals = [2.0, -2.0, 0.5, 3.0, -1.0, -0.5, 4.0, -3.0, 1.5];
+    let item = |r: &mut Rng| -> Item {
+        let e = r.below(OPERANDS.len());
+        match r.below(6) { 0 | 1 | 2 => Item::Coef(*r.pick(&vals), e), 3 => Item::Div(if r.below(12) == 0 { 0.0 } else { *r.pick(&vals) }, e), 4 => Item::Plain(e), _ => Item::Const(*r.pick(&vals)) }
+    };
+    let nrows = 1 + r.below(3);
+    let mut rows = Vec::new();
+    for _ in 0..nrows {
+        let nt = 1 + r.below(2);
+        let mut lhs: Vec<Item> = (0..nt).map(|_| item(r)).collect();
+        if lhs.iter().all(|i| matches!(i, Item::Const(_))) { lhs.push(Item::Plain(r.below(3))); }
+        let rhs_v = *r.pick(&[-2.0, 2.0, 10.0, -4.0, 6.0, 0.5, -0.5, 3.0]);
+        rows.push((lhs, *r.pick(&["<=", ">=", "<=", ">=", "="]), Item::Const(rhs_v)));
+    }
+    let no = 1 + r.below(2);
+    let obj: Vec<Item> = (0..no).map(|_| { let e = r.below(3); if r.below(2) == 0 { Item::Coef(*r.pick(&vals), e) } else { Item::Plain(e) } }).collect();
+    Twin { dir: *r.pick(&["min", "max"]), obj, rows }
+}
+fn render_twin(r: &mut Rng, t: &Twin) -> String {
+    let mut consts: Vec<(String, f64)> = Vec::new();
+    let obj = t.obj.iter().map(|i| render_item(r, i, &mut consts)).collect::<Vec<_>>().join(" + ");
+    let mut s = format!("{} {}\ns.t.\n", t.dir, obj);
+    for (lhs, cmp, rhs) in &t.rows {
+        let l = lhs.iter().map(|i| render_item(r, i, &mut consts)).collect::<Vec<_>>().join(" + ");
+        s += &format!("    {} {} {}\n", l, cmp, render_item(r, rhs, &mut consts));
+    }
+    if !consts.is_empty() { s += "where\n"; for (n, v) in &consts { s += &format!("    let {} = {}\n", n, v); } }
+    s += "define\n    x as Real(-10, 10)\n    y as Real(-5, 8)\n    z as Real(-100, 100)\n";
+    s
+}
+fn twins(r: &mut Rng, n: usize, rep: &mut Report) {
+    let declared: Vec<String> = ["x", "y", "z"].iter().map(|s| s.to_string()).collect();
+    let grids: [&[f64]; 3] = [&[-10.0, 10.0, 0.0, 1.0, -1.0, 2.5, -3.0, 4.0, 20.0], &[-5.0, 8.0, 0.0, 1.0, -1.0, 2.5, -3.0], &[-100.0, 100.0, 0.0, 1.0, -2.0, 7.0, 15.0, -12.0]];
+    let compile = |src: &str| -> Result<Result<rooc::LinearModel, String>, ()> {
+        if RoocParser::new(src.to_string()).parse().is_err() { return Err(()); }
+        let m = match std::panic::catch_unwind(|| RoocParser::new(src.to_string()).parse_and_transform(vec![], &IndexMap::new())) { Ok(Ok(m)) => m, Ok(Err(e)) => return Ok(Err(format!("transform: {}", e.chars().take(160).collect::<String>()))), Err(_) => return Ok(Err("panic in transform".into())) };
+        match std::panic::catch_unwind(|| Linearizer::linearize(m)) { Ok(Ok(l)) => Ok(Ok(l)), Ok(Err(e)) => Ok(Err(format!("linearize: {}", harness::models::lerr_kind(&e)))), Err(_) => Ok(Err("panic in linearize".into())) }
+    };
+    for _ in 0..n {
+        let t = gen_twin(r);
+        let a = render_twin(r, &t); let b = render_twin(r, &t);
+        rep.count("twins.generated");
+        if a == b { rep.count("twins.identical_spelling"); continue; }
+        let (la, lb) = match (compile(&a), compile(&b)) { (Ok(x), Ok(y)) => (x, y), _ => { rep.count("twins.generator_syntax_error"); continue; } };
+        match (&la, &lb) {
+            (Err(_), Err(_)) => { rep.count("twins.both_rejected"); continue; }
+            (Ok(_), Err(e)) | (Err(e), Ok(_)) => { rep.fail(json!({"kind":"respelling-changes-acceptance","class":"unclassified","input":a,"twin":b,"error":e})); continue; }
+            _ => {}
+        }
+        let (la, lb) = (la.unwrap(), lb.unwrap());
+        rep.count("twins.both_compile");
+        let (sa, sb) = (LinSide::new(&la, &declared), LinSide::new(&lb, &declared));
+        if sa.bool_aux.len() > 8 || sb.bool_aux.len() > 8 || sa.cont_aux.len() > 6 || sb.cont_aux.len() > 6 { rep.count("twins.skipped_too_large"); continue; }
+        let dirsign: i8 = match la.optimization_type() { OptimizationType::Min => -1, OptimizationType::Max => 1, _ => 0 };
+        let total: usize = grids.iter().map(|g| g.len()).product();
+        let mut reported = false;
+        for code in 0..total {
+            let mut c = code; let mut env = IndexMap::new();
+            for (j, name) in declared.iter().enumerate() { env.insert(name.clone(), grids[j][c % grids[j].len()]); c /= grids[j].len(); }
+            let (va, vb) = (sa.best_extension(&env, dirsign), sb.best_extension(&env, dirsign));
+            rep.count("twins.points_compared");
+            let same = match (va, vb) { (None, None) => true, (Some(p), Some(q)) => p.is_nan() || q.is_nan() || (p - q).abs() <= 1e-6 * p.abs().max(q.abs()).max(1.0), _ => false };
+            if !same && !reported { reported = true; rep.fail(json!({"kind":"respelling-changes-compiled-model","class":"unclassified","input":a,"twin":b,"assignment":env,"first":format!("{:?}", va),"second":format!("{:?}", vb)})); }
+        }
+    }
+}
 
 fn main() {
     let args: Vec<String> = std::env::args().collect();
@@ -100,6 +207,7 @@ fn main() {
         }
         if idx % 997 == 0 { rep.sample(json!({"input": e.to_string(), "simplify": s.to_string(), "flatten": f.to_string(), "stream": stream}), 12); }
     }
+    twins(&mut r, if n_random > 10000 { 2500 } else { 400 }, &mut rep);
     rep.add("cases", all.len() as u64);
     rep.write(&format!("{outdir}/report.json"));
 }
